@@ -660,7 +660,6 @@ Proof.
     try rewrite Z.eqb_eq in *; try rewrite Z.eqb_neq in *;
     try rewrite Z.ltb_lt in *; try rewrite Z.ltb_ge in *; try lia; try discriminate; try reflexivity;
     try (intros H; apply pareto_asym; exact H).
-  intros H. apply Z.ltb_lt in H. apply Z.ltb_ge. lia.
 Qed.
 
 Lemma dominates_irrefl : forall a, dominates a a = false.
@@ -742,4 +741,50 @@ Proof.
   - intros x Hx Hn. apply front_spec. auto.
   - intros x Hx. apply front_spec in Hx. tauto.
   - apply fnds_front_is_front.
+Qed.
+
+(* ---------- what the skeleton theorems give for anything that refines the skeleton ---------- *)
+(* observable semantics of a solver: objective, box, seed, population size,
+   iterations, worker threads  |->  panic or (best variables, best fitness, history) *)
+Definition solver_sem :=
+  (point -> Z) -> list (Z * Z) -> N -> nat -> nat -> nat -> outcome (point * Z * list Z).
+
+Definition result_of (o : outcome state) : outcome (point * Z * list Z) :=
+  match o with Ok s => Ok (archive_result s) | Panic p => Panic p end.
+
+(* "is an instance of the skeleton": some oracle and replacement policy reproduce it *)
+Definition refines_skeleton (solve : solver_sem) : Prop :=
+  exists init_raw cand_raw accept, forall f bounds seed n iters threads,
+    solve f bounds seed n iters threads =
+    result_of (run f bounds init_raw cand_raw accept seed n iters).
+
+Definition solver_property (solve : solver_sem) : Prop :=
+  forall f bounds seed n iters threads, proper_box bounds -> (0 < n)%nat ->
+  exists x b h, solve f bounds seed n iters threads = Ok (x, b, h) /\
+    in_box bounds x /\ b = f x /\ nonincreasing_list h /\ Forall (fun v => b <= v) h /\
+    forall threads', solve f bounds seed n iters threads' = solve f bounds seed n iters threads.
+
+Theorem skeleton_instances : forall solve, refines_skeleton solve -> solver_property solve.
+Proof.
+  intros solve [ir [cr [acc Hr]]] f bounds seed n iters threads Hp Hn.
+  destruct (run_total f bounds ir cr acc Hp seed n iters Hn) as [s Hs].
+  exists (vars (arch s)), (fit (arch s)), (hist s).
+  rewrite Hr, Hs. cbn. split; [reflexivity|].
+  destruct (in_bounds _ _ _ _ _ _ _ _ _ Hs) as [Hb _].
+  destruct (best_consistent _ _ _ _ _ _ _ _ _ Hs) as [Hc _].
+  destruct (history_monotone _ _ _ _ _ _ _ _ _ Hs) as [Hm Hg].
+  repeat split; try assumption.
+  intros t'. rewrite Hr, Hs. reflexivity.
+Qed.
+
+Theorem in_bounds_total : forall f bounds init_raw cand_raw accept seed n iters,
+  proper_box bounds -> (0 < n)%nat ->
+  exists s, run f bounds init_raw cand_raw accept seed n iters = Ok s /\
+    in_box bounds (vars (arch s)) /\ in_box bounds (vars (pop_best s)) /\
+    Forall (fun i => in_box bounds (vars i)) (pop s) /\
+    Forall (fun i => in_box bounds (vars i)) (evals s).
+Proof.
+  intros f bounds ir cr acc seed n iters Hp Hn.
+  destruct (run_total f bounds ir cr acc Hp seed n iters Hn) as [s Hs].
+  exists s. split; [exact Hs | eapply in_bounds; exact Hs].
 Qed.
